@@ -17,7 +17,7 @@ ASSUMPTIONS = ["requests are logged by the instrumented nodes immediately before
                "g++-12 -O1 build of the working tree with harness-side shims"]
 FLOORS = {"requests_honoured": {"quick": 3000, "thorough": 40000}, "cycles_compared": {"quick": 4000, "thorough": 50000},
           "next_time_checks": {"quick": 4000, "thorough": 50000}, "requests_beyond_end": {"quick": 50, "thorough": 500},
-          "nested_requests": {"quick": 200, "thorough": 2000}}
+          "nested_requests": {"quick": 200, "thorough": 2000}, "dynamic_child_runs_compared": {"quick": 1500, "thorough": 25000}}
 BATCH = 25
 
 
@@ -26,6 +26,14 @@ def generate(rng, tier, seed):
     cases = []
     for k in range(n):
         c = gen_case(rng, f"c02_{seed}_{k}", allow_sched=True, max_depth=3 if rng.random() < 0.3 else 2)
+        cases.append(c)
+    # wake-ups asked for inside DYNAMIC children (switch branches, map instances with timers) while the owning node is woken
+    # for other reasons: every instance run of the standalone oracle that is not input-driven is a wake-up honoured at its time
+    from .c12 import gen_case12
+    from .c10 import gen_case10
+    for k in range(n // 8):
+        c = gen_case12(rng, f"c02_{seed}_sw{k}", k) if k % 2 else gen_case10(rng, f"c02_{seed}_mp{k}", k)
+        c.meta["delegate"] = "c12" if "spec" in c.meta else "c10"
         cases.append(c)
     return cases
 
@@ -65,6 +73,16 @@ def compare_cycles(case, run, mr):
 
 
 def check(case, tr):
+    if case.meta.get("delegate"):
+        from . import c10, c12
+        r = (c12 if case.meta["delegate"] == "c12" else c10).check(case, tr)
+        r.counters = {"dynamic_child_cases": 1, "dynamic_child_runs_compared": r.counters.get("instance_runs_compared", 0),
+                      "dynamic_child_timer_runs": r.counters.get("timer_runs_in_instances", 0)}
+        return r
+    return check_core(case, tr)
+
+
+def check_core(case, tr):
     res = Result(signature=case.text().split("\n", 1)[1])
     if tr.build_error:
         res.violations.append(Violation(f"valid program rejected at build: {tr.build_error}"))
